@@ -552,9 +552,10 @@ func fRunCLI(dir string, r *fRender, filters []fFilter) string {
 		return fmt.Sprintf("err exit=%d no-summary %s", exit, hx.PanicClass(out))
 	}
 	ran := ""
-	for _, l := range strings.Split(out, "\n") {
-		if i := strings.Index(l, "RAN:["); i >= 0 {
-			ran = fSortedMarkers(l[i:])
+	// a long list is inspected over several lines
+	if i := strings.LastIndex(out, "RAN:["); i >= 0 {
+		if j := strings.Index(out[i:], "]"); j >= 0 {
+			ran = fSortedMarkers(out[i : i+j])
 		}
 	}
 	return fmt.Sprintf("ok exit=%d events=%s", exit, ran)
